@@ -51,6 +51,7 @@ def errMsg : LexErr → String
   | .invalidNumeric => "invalid numeric literal.."
   | .outOfRange => "numeric literal out of range.."
   | .invalidToken => "invalid token.."
+  | .fuel => "MODEL-OUT-OF-FUEL"
 
 /-- tokens produced before an error are printed too (the harness prints as it goes) -/
 def lexPrint : Nat → Stream → List String → List String
